@@ -161,8 +161,13 @@ def main(argv=None):
       'violations': len(unknown),
   }
   if not args.replay and not args.only:
-    os.makedirs(EVIDENCE, exist_ok=True)
-    with open(os.path.join(EVIDENCE, '%s.json' % prop), 'w') as f:
+    evdir = EVIDENCE
+    if os.path.realpath(os.environ.get('VERIF_REPO', '/repo')) != '/repo':
+      # runs against a scratch copy (mutation self-test) never touch the
+      # committed evidence
+      evdir = os.path.join(VERIF, '.build', 'evidence-scratch')
+    os.makedirs(evdir, exist_ok=True)
+    with open(os.path.join(evdir, '%s.json' % prop), 'w') as f:
       json.dump(evidence, f, indent=1, sort_keys=True)
       f.write('\n')
 
